@@ -288,15 +288,17 @@ class Emit:
         self.wrap = wrap_except
 
     def lit(self, v):
-        x = float(v)
-        if x == int(x) and "e" not in v.lower():
-            n = int(x)
+        m = re.fullmatch(r"(\d+)(?:\.(\d*))?(?:[eE]([-+]?\d+))?", v)
+        if not m:
+            raise Unreadable("numeric literal " + v)
+        ip, fp, ex = m.group(1), m.group(2) or "", int(m.group(3) or 0)
+        if ex == 0 and int(fp or "0") == 0:
+            n = int(ip)
             return "0" if n == 0 else "1" if n == 1 else f"Scalar.ofNat {n}"
-        mant, exp = v, 0
-        if "e" in v.lower():
-            raise Unreadable("exponent literal " + v)
-        ip, fp = mant.split(".")
-        return f"Scalar.ofSci {int(ip + fp)} true {len(fp)}"
+        mant, e10 = int(ip + fp), ex - len(fp)              # value = mant * 10^e10
+        if e10 >= 0:
+            return f"Scalar.ofSci {mant} false {e10}"
+        return f"Scalar.ofSci {mant} true {-e10}"
 
     def ty(self, e):
         k = e[0]
@@ -567,7 +569,7 @@ def gen(repo):
          "network.cpp LocalNetwork::std_error_ellipse after `cyy=q_xx(iy,iy); cyx=q_xx(iy,ix); cxx=q_xx(ix,ix)`; "
          "result (a, b, alfa)", trig=True)
 
-    v = strip_comments(function_body(ncpp, r"void\s+LocalNetwork::vyrovnani_\s*\(\s*\)\s*\{"))
+    v = strip_comments(function_body(ncpp, r"void\s+LocalNetwork::vyrovnani_\s*\(\s*\)\s*(?:try\s*)?\{"))
     m1 = re.search(r"double\s+MM\s*=\s*([^;]+);", v)
     m2 = re.search(r"sigma_L\(n\)\s*=\s*([^;]+);", v)
     if not m1 or not m2:
